@@ -8,6 +8,59 @@ class Coordinate(PropertiesDataBounds):
 
     """
 
+    def __init__(
+        self,
+        properties=None,
+        data=None,
+        bounds=None,
+        geometry=None,
+        interior_ring=None,
+        source=None,
+        copy=True,
+        _use_data=True,
+    ):
+        """**Initialisation**
+
+        :Parameters:
+
+            {{init properties: `dict`, optional}}
+
+            {{init data: data_like, optional}}
+
+            {{init bounds: `Bounds`, optional}}
+
+            {{init geometry: `str`, optional}}
+
+            {{init interior_ring: `InteriorRing`, optional}}
+
+            {{init source: optional}}
+
+            {{init copy: `bool`, optional}}
+
+        """
+        super().__init__(
+            properties=properties,
+            data=data,
+            bounds=bounds,
+            geometry=geometry,
+            interior_ring=interior_ring,
+            source=source,
+            copy=copy,
+            _use_data=_use_data,
+        )
+
+        # Get the climatology setting from source
+        if source is not None:
+            try:
+                climatology = source.get_climatology(None)
+            except AttributeError:
+                climatology = None
+
+            if climatology is not None:
+                self._set_component(
+                    "climatology", bool(climatology), copy=False
+                )
+
     def del_climatology(self, default=ValueError()):
         """Remove the climatology setting.
 
